@@ -29,6 +29,13 @@ fn setup_mixed(p: &Project) {
 /// a path holding U+FFFD stands for a file whose NAME is not valid UTF-8 (the byte 0xE9 in its place): reported with the
 /// replacement character, like every other file of the tree
 fn write_file(p: &Project, path: &str, content: &[u8]) {
+  if path == "hl/copy.js" {
+    // a second NAME of hl/orig.js (a hard link): two files of the tree, each with its own findings
+    let (src, dst) = (std::path::Path::new(&p.root).join("hl/orig.js"), std::path::Path::new(&p.root).join(path));
+    let _ = std::fs::remove_file(&dst);
+    std::fs::hard_link(src, dst).unwrap();
+    return;
+  }
   if path.contains('\u{fffd}') {
     use std::os::unix::ffi::OsStrExt;
     let raw: Vec<u8> = path.replace('\u{fffd}', "\u{1}").bytes().map(|b| if b == 1 { 0xE9 } else { b }).collect();
@@ -116,6 +123,10 @@ pub fn drive(seed: u64, outdir: &str, thorough: bool) {
     }
     if tree == 1 {
       files.push(("a/caf\u{fffd}.js".to_string(), b"foo(1); foo(2);\n".to_vec(), "ok"));
+    }
+    if tree == 2 {
+      files.push(("hl/orig.js".to_string(), b"foo(1); foo(2);\n".to_vec(), "ok"));
+      files.push(("hl/copy.js".to_string(), b"foo(1); foo(2);\n".to_vec(), "ok"));
     }
     let threads: Vec<usize> = if mixed { vec![1, 2, 4] } else if lonely { vec![2, 4, 8] } else if big { (if thorough { vec![2, 8, 16] } else { vec![8] }) } else if thorough { vec![1, 2, 3, 4, 8, 16] } else { vec![1, 2, 4, 16] };
     let reps = if big { 1 } else if lonely { 3 } else if thorough { 4 } else { 2 };
